@@ -17,6 +17,11 @@ Definition gen_cfg : ts_cfg :=
 Lemma gen_is_std : gen_cfg = std_cfg.
 Proof. reflexivity. Qed.
 
+(* the JSON batch decoder copies each event's time string out of the pooled parser's buffer
+   (a zero-copy alias would let a later request overwrite it before it is converted) *)
+Lemma gen_time_string_copied : batch_time_string_copied = true.
+Proof. reflexivity. Qed.
+
 (* Integer Unix epoch in the event-time header or a batch element's time field: ten digits of
    seconds followed by k = 0..9 digits of fraction (seconds, milliseconds, microseconds,
    nanoseconds and everything between).  For EVERY instant of the range that is expressible with k
@@ -59,6 +64,15 @@ Theorem C22_reencode_identity : forall sec ns,
   decode_mts (encode_mts (sec, ns)) = Some (sec, ns) /\ mts_wf (encode_mts (sec, ns)) = true.
 Proof. exact mts_roundtrip. Qed.
 Print Assumptions C22_reencode_identity.
+
+(* Batches and overlapping requests: whatever the mix of formats, every event of every request is
+   forwarded with its own instant (the model has no state shared between events or requests; the
+   correspondence drives overlapping requests against the real handlers to check the code has none). *)
+Theorem C22_batch_pointwise : forall reqs,
+  Forall creq_ok reqs ->
+  forward_batch gen_cfg (map creq_input reqs) = map (fun r => Some (creq_instant r)) reqs.
+Proof. rewrite gen_is_std. exact batch_pointwise. Qed.
+Print Assumptions C22_batch_pointwise.
 
 (* Non-vacuity: the value of the finding, a 13-digit millisecond epoch, satisfies the hypotheses and
    comes out exact; so do a nanosecond RFC 3339 time with an offset and a timestamp-96. *)
